@@ -40,10 +40,14 @@ int main() {
   int cap = tier() ? 16 : 8;
   int maxT = (int)vsim_param("maxthreads", 1, cap);
   Machine m = draw_machine(maxT);
-  int algo = (int)vsim_param("algo", 0, 7);
+  // weighted: the algorithms with shared helper state (partition, sort, partial_sum) get most of the runs
+  static const int AW[20] = {1, 1, 1, 1, 1, 1, 0, 0, 0, 0, 0, 6, 6, 6, 2, 3, 4, 4, 5, 7};
+  int algo = AW[vsim_param("algo_w", 0, 19)];
+  { long forced = (long)vsim_param_fixed("algo", -1); if (forced >= 0) algo = (int)forced; }
   static const char* an[] = {"sort", "partition", "count_if", "find_if", "accumulate", "map_reduce", "partial_sum", "destroy"};
   vsim_note("component", "algo=%s", an[algo]);
   vsim_enable_fault(VF_CAS_WEAK, 0.005, 0.1);
+  vsim_enable_fault(VF_PLAIN_PREEMPT, 0.05, 0.9);   // shared helper state of the algorithms is plain data behind locks
   vsim_set_budget(8000000);
   galois::SharedMemSys G;
   int hw = (int)galois::substrate::getThreadPool().getMaxThreads();
@@ -51,6 +55,7 @@ int main() {
   galois::setActiveThreads(nthr); nthr = (int)galois::getActiveThreads();
   int sizes[] = {0, 1, 2, 100, 1023, 1024, 1025, 1500, 2047, 2048, 2049, 3072, 4097, 4096, 5120, 6144, 8192, (int)wl_range(1025, tier() ? 12000 : 5000), (int)wl_range(2, 1100)};
   int n = sizes[wl_range(0, 18)];
+  if (algo == 1 && wl_chance(40)) { n = (int)wl_range(4096, tier() ? 40000 : 14000); nthr = (int)wl_range(std::min(3, hw), hw); galois::setActiveThreads(nthr); nthr = (int)galois::getActiveThreads(); }   // many blocks, many left-over blocks
   int shape = (int)wl_range(0, 8);
   std::vector<El> in = gen(n, shape);
   int thr = (int)wl_range(0, 4);
@@ -59,6 +64,7 @@ int main() {
   auto pred = [pivot](const El& e) { return e.key < pivot; };
   vsim_note("plan", "n=%d shape=%d pivot=%d threads=%d", n, shape, pivot, nthr);
   namespace P = galois::ParallelSTL;
+  vsim_plain_preempt_window(1);   // predicates and comparators are pure; the checks after each call run on the main thread alone
   switch (algo) {
   case 0: {
     std::vector<El> a = in, b = in;
